@@ -117,7 +117,12 @@ def c11_params(rng: random.Random, cell: Optional[dict] = None) -> dict:
     p['cancel_k'] = rng.randint(0, 14)
     p['cancel_t'] = rng.choice([0.001, 0.01, 0.05, 1.0, 5.0, 9.99, 10.0, 10.01, 30.0, 59.9, 60.0, 60.1])
     # the scripted server leaves the optional obfuscated-port fields out of its answers when there is no such port
-    p['omit_obf_fields'] = random.Random(repr(sorted((k, str(v)) for k, v in p.items()))).random() < 0.4
+    xr = random.Random(repr(sorted((k, str(v)) for k, v in p.items())))
+    p['omit_obf_fields'] = xr.random() < 0.4
+    # which ports the client itself listens on (a peer can pierce through either) and, for a piercing peer, how long
+    # after connecting it sends its PeerPierceFirewall message (anything within the 60 s the request waits is fine)
+    p['my_listen'] = xr.choice(['both', 'both', 'both', 'both', 'obf-only', 'clear-only'])
+    p['pierce_init_delay'] = xr.choice([0.0, 0.0, 0.0, 2.0, 6.0, 20.0, 45.0]) if p['indirect'] == 'pierce-fast' else 0.0
     return p
 
 
@@ -137,7 +142,18 @@ def run_c11_case(res: dict, params: dict, seed: Any, judge_c10: bool = False, ju
         from aioslsk.settings import PeerSettings
         await w.start_server()
         w.server.omit_obfuscated_fields = bool(p.get('omit_obf_fields'))
-        me = await w.add_client('me')
+        my_listen = p.get('my_listen', 'both')
+        if my_listen == 'both':
+            me = await w.add_client('me')
+        else:
+            from aioslsk.settings import ListeningSettings, NetworkSettings, ServerSettings, UpnpSettings
+            cport, oport = w.alloc_ports()
+            net_settings = NetworkSettings(
+                server=ServerSettings(hostname='srv', port=w.server.port),
+                listening=ListeningSettings(error_mode='any', port=cport if my_listen == 'clear-only' else 0,
+                                            obfuscated_port=oport if my_listen == 'obf-only' else 0),
+                upnp=UpnpSettings(enabled=False))
+            me = await w.add_client('me', w.make_settings('me', port=cport, obf_port=oport, network=net_settings))
         me.client.settings.network.peer.connect_mode = PeerConnectMode.RACE if p['mode'] == 'race' else PeerConnectMode.FALLBACK
         me.client.settings.network.peer.obfuscate = p['prefer_obf']
         bob = await w.add_peer('bob', clear=p['ports'] in ('clear', 'both'), obf=p['ports'] in ('obf', 'both'))
@@ -192,7 +208,22 @@ def run_c11_case(res: dict, params: dict, seed: Any, judge_c10: bool = False, ju
                 else:
                     await asyncio.sleep(p['i_lat'])
                 w.pending_pierce[('bob', msg.ticket)] = (msg.typ, msg.username)
-                await bob.pierce(msg)
+                if p.get('pierce_init_delay'):
+                    from aioslsk.protocol.messages import PeerPierceFirewall
+                    use_obf = bool(msg.obfuscated_port) and not msg.port
+                    try:
+                        link = await bob.dial(msg.obfuscated_port if use_obf else msg.port, msg.typ, host=msg.ip,
+                                              obfuscated=use_obf, init=None, ticket=msg.ticket, remote_user=msg.username)
+                    except (ConnectionError, OSError):
+                        bob.cannot_report(msg)
+                        return
+                    await asyncio.sleep(p['pierce_init_delay'])
+                    typ_, link.typ = link.typ, None      # the init message is encoded as for a connection of unknown type
+                    link.send(PeerPierceFirewall.Request(msg.ticket))
+                    link.typ = typ_
+                    obs['late_pierce_messages'] = obs.get('late_pierce_messages', 0) + 1
+                else:
+                    await bob.pierce(msg)
             elif ind == 'cannot':
                 await asyncio.sleep(p['i_lat'])
                 bob.cannot_report(msg)
